@@ -63,6 +63,7 @@ pub(crate) fn mathematical_days_in_year(y: i32) -> i32 {
     }
 }
 
+#[cfg(feature = "tzdb")]
 pub(crate) fn epoch_time_to_epoch_year(t: i64) -> i32 {
     let epoch_days = epoch_ms_to_epoch_days(t);
     let (rata_die, shift_constant) = neri_schneider::rata_die_for_epoch_days(epoch_days);
@@ -70,19 +71,16 @@ pub(crate) fn epoch_time_to_epoch_year(t: i64) -> i32 {
 }
 
 /// Returns either 1 (true) or 0 (false)
+#[cfg(feature = "tzdb")]
 pub(crate) fn mathematical_in_leap_year(t: i64) -> i32 {
     mathematical_days_in_year(epoch_time_to_epoch_year(t)) - 365
 }
 
 /// Returns the epoch day number for a given year.
+#[cfg(feature = "tzdb")]
 pub(crate) fn epoch_days_for_year(y: i32) -> i32 {
     365 * (y - 1970) + (y - 1969).div_euclid(4) - (y - 1901).div_euclid(100)
         + (y - 1601).div_euclid(400)
-}
-
-// TODO: test limits
-pub(crate) fn epoch_time_for_year(y: i32) -> i64 {
-    i64::from(MS_PER_DAY) * i64::from(epoch_days_for_year(y))
 }
 
 pub(crate) const fn epoch_ms_to_epoch_days(ms: i64) -> i32 {
